@@ -36,10 +36,12 @@ class RefEvent:
 
 
 class Env:
-    """contents: {bucket id: [(offset from T_START in us, duration in us, data)]} of the datastore asked"""
+    """contents: {bucket id: [(offset from T_START in us, duration in us, data)]} of the datastore asked;
+    hosts: {bucket id: hostname in the bucket's metadata} (default: "h1", what Impl.create_bucket gives)"""
 
-    def __init__(self, contents, alias):
+    def __init__(self, contents, alias, hosts=None):
         self.contents, self.alias = contents, alias
+        self.hosts = hosts if hosts is not None else {b: "h1" for b in contents}
 
 
 def _instant(s):
@@ -79,6 +81,21 @@ def r_query_bucket(env, ns, name):
 def r_query_bucket_eventcount(env, ns, name):
     start, end = _window(env, ns, name, "Other")
     return len([e for e in env.contents[name] if _in_window(e, start, end)])
+
+
+def r_find_bucket(env, ns, filter_str, hostname=None):
+    """find_bucket(filter[, hostname]): the id of the bucket whose id contains `filter` (and, when a hostname is
+    written, whose metadata carries that hostname).  The documented behaviour does not say WHICH of several
+    matching buckets is meant (the first one the datastore happens to list), so the reference answers only when
+    the match is unique; a hostname that is not a non-empty string is outside the documented behaviour."""
+    if hostname is not None and not (isinstance(hostname, str) and hostname):
+        raise RefError("Other")
+    found = [b for b in env.contents if filter_str in b and (hostname is None or env.hosts.get(b) == hostname)]
+    if not found:
+        raise RefError("FunctionError")
+    if len(found) > 1:
+        raise RefError("Other")
+    return found[0]
 
 
 def _rule(rule):
@@ -147,8 +164,10 @@ def r_filter(exclude):
     return f
 
 
-# name -> (parameter types, or None for variadic; function(env, namespace, *values))
+# name -> (parameter types, or None for variadic; function(env, namespace, *values)); "?t" = an optional
+# parameter (has a default: may be left out, and its type is not checked at the call)
 REF = {
+    "find_bucket": (["str", "?str"], r_find_bucket),
     "nop": ([], lambda env, ns: 1),
     "echo": (None, lambda env, ns, *a: list(a)),
     "limit_events": (["list", "int"], lambda env, ns, l, n: l[:n]),
@@ -173,6 +192,14 @@ def py_isinstance(v, t):
     return {"list": isinstance(v, list), "str": isinstance(v, str), "int": isinstance(v, int)}[t]
 
 
+def arity(name):
+    """(least, most) number of written arguments the built-in takes; most = None for a variadic one"""
+    types = REF[name][0]
+    if types is None:
+        return 0, None
+    return len([t for t in types if not t.startswith("?")]), len(types)
+
+
 def ref_eval(t, ns, env):
     k = t[0]
     if k == "int":
@@ -194,17 +221,18 @@ def ref_eval(t, ns, env):
     types, fn = REF[name]
     if types is not None:
         for ty, v in zip(types, vals):
-            if not py_isinstance(v, ty):
+            if not ty.startswith("?") and not py_isinstance(v, ty):
                 raise RefError("FunctionError")
-        if len(vals) != len(types):
+        least, most = arity(name)
+        if not least <= len(vals) <= most:
             raise RefError("InterpretError")
     return fn(env, ns, *vals)
 
 
-def ref_run(prog, contents=None, alias=False, ctx=None):
+def ref_run(prog, contents=None, alias=False, ctx=None, hosts=None):
     """The value the program text denotes when asked of a datastore holding `contents` under the query name
     and period ctx = (name, start, end as offsets from T_START in us); raises RefError(class)."""
-    env = Env(contents or {}, alias)
+    env = Env(contents or {}, alias, hosts)
     name, start, end = ctx or (QNAME, 0, (T_END - T_START) // US)
     ns = {"True": True, "False": False, "true": True, "false": False, "NAME": name,
           "STARTTIME": (T_START + start * US).isoformat(), "ENDTIME": (T_START + end * US).isoformat()}
@@ -230,12 +258,12 @@ def canon_ref(v):
     raise TypeError(f"reference value of type {type(v)}")
 
 
-def denotation(prog, contents=None, ctx=None):
+def denotation(prog, contents=None, ctx=None, hosts=None):
     """("value", canonical value) | ("error", class) | ("ambiguous", None): see the module docstring."""
     outs = []
     for alias in (False, True):
         try:
-            outs.append(("value", canon_ref(ref_run(prog, contents, alias, ctx))))
+            outs.append(("value", canon_ref(ref_run(prog, contents, alias, ctx, hosts))))
         except RefError as e:
             outs.append(("error", e.cls))
     return outs[0] if outs[0] == outs[1] else ("ambiguous", None)
